@@ -1,5 +1,5 @@
 (* CorrC12.v — correspondence checker for C12 (dictionary keys stay valid). *)
-From Pyro Require Export Model.Base Model.Varint Model.Dict Corr.Verdict.
+From Pyro Require Export Model.Base Model.Varint Model.Dict Model.Tree Corr.Verdict.
 Open Scope string_scope.
 Open Scope list_scope.
 
@@ -16,7 +16,31 @@ Record sobs := {
   so_probe : gres          (* CProbe: result of Get on the (possibly malformed) key; else GMissing *)
 }.
 
-Record case := { c_ops : list cop; c_obs : list sobs }.
+(* storage-level stream: uploads of one application (each into its own 10 s slot), write-back ticks of the
+   periodic task and evictions in between, Close, New, render.  Stored trees reference frame names only through
+   dictionary keys, so every frame name has to come back. *)
+Record storobs := {
+  sr_stacks : list (bytes * N);      (* every (stack, count) ingested, in order *)
+  sr_before : option tnode;          (* Go: storage.Get over all slots right before Close *)
+  sr_after : option tnode            (* Go: the same query after Close + New *)
+}.
+
+Record case := { c_ops : list cop; c_obs : list sobs; c_stor : option storobs }.
+
+Definition den_of_stacks (ss : list (bytes * N)) : list (list bytes * N) :=
+  pnz (pnorm (map (fun kv => (bsplit 59 (fst kv), snd kv)) ss)).
+Definition den_of_tree (t : option tnode) : list (list bytes * N) :=
+  match t with Some t => pnz (pnorm (t_den t)) | None => [] end.
+
+Definition check_stor (o : option storobs) : list verdict :=
+  match o with
+  | None => []
+  | Some r =>
+      [spec (pm_eqb (den_of_tree (sr_after r)) (den_of_stacks (sr_stacks r)))
+            "after Close + New a stored profile does not show the frame names (stacks and counts) that were ingested";
+       corr (pm_eqb (den_of_tree (sr_before r)) (den_of_stacks (sr_stacks r)))
+            "storage: the profile rendered before the restart is not the sum of what was ingested"]
+  end.
 
 Definition gres_eqb (a b : gres) : bool :=
   match a, b with
@@ -68,4 +92,4 @@ Fixpoint run (ops : list cop) (obs : list sobs) (t : trie) (issued : list (bytes
   end.
 
 Definition check_case (c : case) : verdict :=
-  combine_verdicts (run (c_ops c) (c_obs c) d_new []).
+  combine_verdicts (run (c_ops c) (c_obs c) d_new [] ++ check_stor (c_stor c)).
